@@ -110,3 +110,68 @@ __CPROVER_assigns(g_anext)
 __CPROVER_ensures(g_anext == g_nseq)                                                                      /*@ob C02,C14.every-action-of-the-sequence-has-run */
 ;
 #endif
+/* ---- front/row2.hpp, front/internal_row.hpp, front/detail/row2_helper.hpp: rows naming a member function of ANY state (or of the machine):
+   action_call / guard_call select the helper overload by is_base_of<CalledFor, FSM> and pass event / machine / state set through;
+   the helpers call the member exactly once, on the machine (true_) or on the state object keyed by CalledFor in the state set (false_) ---- */
+#if UNIT_ROW2_ACTION || UNIT_ROW2_GUARD || UNIT_ROW2_HELPER
+extern const _Bool g_called_is_fsm; extern const stref_t g_all_states; extern const type_t CalledForAction, CalledForGuard, FSM;
+#define is_base_of(C, F) g_called_is_fsm
+#define bool_(x) ((x) != 0)
+#endif
+#if UNIT_ROW2_ACTION
+void row2_action_call_helper(fsm_t* fsm, event_t evt, stref_t src, stref_t tgt, stref_t all_states, _Bool called_is_fsm)
+__CPROVER_requires(g_acalls == 0 && fsm == g_fsm && all_states == g_all_states)  /*@ob C02,C14.the-rows-action-member-is-called-exactly-once-with-the-machine-and-its-state-set */
+__CPROVER_requires((called_is_fsm != 0) == (g_called_is_fsm != 0))                /*@ob C14.member-of-the-machine-iff-the-named-class-is-a-base-of-the-machine */
+__CPROVER_requires(EV_EQ(evt, g_evt))                                             /*@ob C14,C18.behaviour-gets-the-event-unchanged */
+__CPROVER_assigns(g_acalls)
+__CPROVER_ensures(g_acalls == 1)
+;
+HandledEnum row2_action_call(fsm_t* fsm, event_t evt, stref_t src, stref_t tgt, stref_t all_states)
+__CPROVER_requires(fsm == g_fsm && EV_EQ(evt, g_evt) && all_states == g_all_states && g_acalls == 0)
+__CPROVER_assigns(g_acalls)
+__CPROVER_ensures(g_acalls == 1 && __CPROVER_return_value == HANDLED_TRUE)                               /*@ob C02,C14.action-row-runs-its-action-once-and-answers-true */
+;
+#endif
+#if UNIT_ROW2_GUARD
+_Bool row2_guard_call_helper(fsm_t* fsm, event_t evt, stref_t src, stref_t tgt, stref_t all_states, _Bool called_is_fsm)
+__CPROVER_requires(g_gcalls == 0 && fsm == g_fsm && all_states == g_all_states)  /*@ob C02,C14.the-rows-guard-member-is-called-exactly-once-with-the-machine-and-its-state-set */
+__CPROVER_requires((called_is_fsm != 0) == (g_called_is_fsm != 0))                /*@ob C14.member-of-the-machine-iff-the-named-class-is-a-base-of-the-machine */
+__CPROVER_requires(EV_EQ(evt, g_evt))                                             /*@ob C14,C18.behaviour-gets-the-event-unchanged */
+__CPROVER_assigns(g_gcalls)
+__CPROVER_ensures(g_gcalls == 1 && __CPROVER_return_value == g_guard_answer)
+;
+_Bool row2_guard_call(fsm_t* fsm, event_t evt, stref_t src, stref_t tgt, stref_t all_states)
+__CPROVER_requires(fsm == g_fsm && EV_EQ(evt, g_evt) && all_states == g_all_states && g_gcalls == 0)
+__CPROVER_assigns(g_gcalls)
+__CPROVER_ensures(g_gcalls == 1 && (__CPROVER_return_value != 0) == (g_guard_answer != 0))               /*@ob C14.row-guard-is-the-members-answer */
+;
+#endif
+#if UNIT_ROW2_HELPER
+extern const type_t action, guard; extern int g_mcalls;
+#ifndef ON_FSM
+#define ON_FSM 0
+#endif
+#ifndef IS_GUARD
+#define IS_GUARD 0
+#endif
+_Bool call_member_of_state(stref_t all_states, type_t key, type_t mfp, event_t evt)   /* (fusion::at_key<CalledFor>(all_states).*member)(evt) */
+__CPROVER_requires(!ON_FSM && g_mcalls == 0 && all_states == g_all_states)       /*@ob C02,C14.member-called-exactly-once-on-the-object-the-row-names */
+__CPROVER_requires(key == (IS_GUARD ? CalledForGuard : CalledForAction) && mfp == (IS_GUARD ? guard : action))   /*@ob C14.the-member-and-the-state-object-are-the-ones-the-row-names */
+__CPROVER_requires(EV_EQ(evt, g_evt))                                             /*@ob C14,C18.behaviour-gets-the-event-unchanged */
+__CPROVER_assigns(g_mcalls)
+__CPROVER_ensures(g_mcalls == 1 && __CPROVER_return_value == g_guard_answer)
+;
+_Bool call_member_of_fsm(fsm_t* fsm, type_t mfp, event_t evt)                          /* (fsm.*member)(evt) */
+__CPROVER_requires(ON_FSM && g_mcalls == 0 && fsm == g_fsm)                      /*@ob C02,C14.member-called-exactly-once-on-the-object-the-row-names */
+__CPROVER_requires(mfp == (IS_GUARD ? guard : action))                            /*@ob C14.the-member-and-the-state-object-are-the-ones-the-row-names */
+__CPROVER_requires(EV_EQ(evt, g_evt))                                             /*@ob C14,C18.behaviour-gets-the-event-unchanged */
+__CPROVER_assigns(g_mcalls)
+__CPROVER_ensures(g_mcalls == 1 && __CPROVER_return_value == g_guard_answer)
+;
+_Bool row2_helper_call(fsm_t* fsm, event_t evt, stref_t src, stref_t tgt, stref_t all_states)
+__CPROVER_requires(fsm == g_fsm && EV_EQ(evt, g_evt) && all_states == g_all_states && g_mcalls == 0)
+__CPROVER_assigns(g_mcalls)
+__CPROVER_ensures(g_mcalls == 1)                                                                            /*@ob C02,C14.member-called-exactly-once-on-the-object-the-row-names */
+__CPROVER_ensures(!IS_GUARD || (__CPROVER_return_value != 0) == (g_guard_answer != 0))                      /*@ob C14.row-guard-is-the-members-answer */
+;
+#endif
